@@ -17,6 +17,7 @@ fn main() {
         "c07" => c07::run(&lines),
         "bc" => bc::run(&lines),
         "meta" => meta::run(&lines),
+        "resp" => meta::run_resp(&lines),
         other => {
             eprintln!("unknown property {}", other);
             std::process::exit(2);
